@@ -145,3 +145,118 @@ def strict_limit_edges(body, count_pat, limit_pat, allow_eq_with_unit_increment=
 def const_value(prog, crate, pat):
     c = prog.const(crate, pat)
     return c.get("v")
+
+
+INF = float("inf")
+
+
+def count_range(body, starts, ends, markers, blocked_edges=()):
+    """(min, max) number of marker blocks on paths from any start to any end block (markers at the end block
+    itself count).  Paths are taken in the CFG with DFS back edges removed; if a marker lies on a cycle inside the
+    region the max is INF.  Returns None if no end is reachable."""
+    markers = set(markers)
+    ends = set(ends)
+    blocked_edges = set(blocked_edges)
+    region = body.reachable(starts, blocked_edges=blocked_edges, stop_nodes=ends)
+    # nodes that can reach an end
+    can = set()
+    changed = True
+    can |= (ends & region)
+    while changed:
+        changed = False
+        for b in region:
+            if b in can or b in ends:
+                continue
+            if any(s in can and (b, s) not in blocked_edges for s in body.succ[b]):
+                can.add(b)
+                changed = True
+    if not can & set(starts):
+        return None
+    back = body.back_edges()
+    # cycle check: marker on a cycle within `can`
+    inf = False
+    for m in markers & can:
+        if m in ends:
+            continue
+        r = body.reachable([s for s in body.succ[m] if (m, s) not in blocked_edges], blocked_edges=blocked_edges, stop_nodes=ends)
+        if m in r:
+            inf = True
+    memo = {}
+
+    def f(b, stack=()):
+        if b in memo:
+            return memo[b]
+        own = 1 if b in markers else 0
+        if b in ends:
+            memo[b] = (own, own)
+            return memo[b]
+        lo, hi = INF, -INF
+        for s in body.succ[b]:
+            if (b, s) in back or (b, s) in blocked_edges or s not in can:
+                continue
+            r = f(s)
+            if r is None:
+                continue
+            lo = min(lo, r[0])
+            hi = max(hi, r[1])
+        if lo == INF:
+            memo[b] = None
+            return None
+        memo[b] = (lo + own, hi + own)
+        return memo[b]
+    import sys
+    sys.setrecursionlimit(max(10000, sys.getrecursionlimit()))
+    lo, hi = INF, -INF
+    for s in starts:
+        if s in can:
+            r = f(s)
+            if r:
+                lo = min(lo, r[0])
+                hi = max(hi, r[1])
+    if lo == INF:
+        return None
+    if inf:
+        hi = INF
+    return (lo, hi)
+
+
+def expect_count(ctx, rule, instance, body, starts, ends, markers, want, desc, where="", blocked_edges=()):
+    ctx.bodies.add(body.npath)
+    got = count_range(body, starts, ends, markers, blocked_edges)
+    ok = got is not None and got == want
+    ctx.ob(rule, instance, ok, where, "%s: occurrences on all paths = %s, expected %s" % (desc, got, want))
+    return ok
+
+
+def agg_variants(e, adt_pat):
+    """Variant names of all ADT aggregates in expression `e` whose ADT path matches."""
+    rx = re.compile(adt_pat)
+    return [s[3] for s in mir.walk(e) if s[0] == "agg" and s[1] == "adt" and rx.search(strip_generics(s[2]))]
+
+
+def calls_with_variant(body, callee_pat, adt_pat, variant=None):
+    """Call sites of callee whose argument expressions contain an aggregate ADT::variant."""
+    out = []
+    for s in body.call_sites(callee_pat):
+        e = body.site_expr(s)
+        vs = [v for a in e[2] for v in agg_variants(a, adt_pat)]
+        if (variant is None and vs) or (variant in vs):
+            out.append(s)
+    return out
+
+
+def arm_entry(body, switch_pat, label):
+    """Target blocks of switch edges whose rendered cond matches and label == label."""
+    rx = re.compile(switch_pat)
+    out = []
+    for bi in sorted(body.live):
+        info = body.switch_info(bi)
+        if not info:
+            continue
+        cond, labs = info
+        if not rx.search(render(cond)):
+            continue
+        for tgt, ls in labs.items():
+            if label in ls:
+                out.append((bi, tgt))
+    return out
